@@ -44,6 +44,7 @@ SR3OK(e) ==
      /\ (IF "join" \in DOMAIN e
            THEN /\ e.join = at(Join(sr, a, b), 1) /\ e.meet = at(Meet(sr, a, b), 1)
                 /\ e.choose = at(Choose(sr, a, b), 1) /\ e.choose_ba = at(Choose(sr, b, a), 1)
+                /\ e.rchoose = e.choose /\ e.rchoose_ba = e.choose_ba          \* both traits that declare `choose` (BBSemiring, BBRing)
                 /\ e.le = Leq(sr, a, b) /\ e.ge = Leq(sr, b, a)
                 \* whenever the declared order relates the two: join = choose = the larger, meet = the smaller
                 /\ (IF e.le THEN e.join = at(b, 1) /\ e.choose = at(b, 1) /\ e.choose_ba = at(b, 1) /\ e.meet = at(a, 1) ELSE TRUE)
